@@ -5,8 +5,17 @@ Model: `Model/Realloc.lean` (`createRedist`, executed by the driver at `Rat`, `F
 The multiplication / division / floor of the code is the parameter `alloc`; the scalar type `α`
 of the scores is arbitrary.  Statements quantify over every list of axes (any number of layers,
 any dimensions, shared or not), every base rank and every score vector.
+
+Extension (second half of the file): `Model/ReallocState.lean` models what surrounds the allocation in
+`create_redist_dict` — the traversal of the state tree (`layers_and_axes`, `create_groups`), `score_fn` with its
+five rules and the running average, and the nested dict that is returned — executed by the driver as
+`pipelineFloat` / `pipelineRat` (ops `pipe_f64`, `pipe_rat`).  `scores_nonneg` discharges the "scores ≥ 0"
+hypothesis of `bounds_exact` for the real scoring rules, `realloc_pipeline_bounds` is the end-to-end statement,
+`redist_dict_total` the totality of the returned dict, `realloc_memory_le_uniform` the budget in memory units.
 -/
 import PrecondVerif.Lemmas.Realloc
+import PrecondVerif.Lemmas.ReallocState
+import PrecondVerif.Model.Layout
 
 namespace PrecondVerif.C17
 open PrecondVerif.Realloc
@@ -156,6 +165,237 @@ theorem running_total_negative_rank_witness :
 theorem scale_disparate_witness_repaired :
     createRedistRat 4 [(0, 4, 9007199254740992), (1, 4, 1), (2, 4, 1)]
       = .ok [(4, [(0, 4), (1, 4), (2, 4)])] := by
+  decide +kernel
+
+/-! ## Extension: scoring, traversal, returned dictionary, consumption -/
+
+/-- **Scores are non-negative** (and group keys ≥ 1) for every rule of `score_fn` — `tail_rho`, `sketch_trace`,
+`sketch_intrinsic_rank`, `ggt_trace`, `ggt_intrinsic_rank`, with or without the running average over several
+states — on states whose statistics satisfy the Sketchy invariants (`StatesInv`: `tail ≥ 0`, `eigvals ≥ 0`,
+diagonal of `ema_ggt ≥ 0`, value of the external spectral-norm kernel `≥ 0`; dims ≥ 1), in any ordered
+field and for either rounding of `jnp.mean`.  The axes come out in the iteration order `order`. -/
+theorem scores_nonneg {α : Type} [Field α] [LinearOrder α] [IsStrictOrderedRing α]
+    (ofNat : Nat → α) (hof : ∀ n, 0 ≤ ofNat n) (recip : Bool) (rule : Rule) (avg : Bool)
+    (states : List (Realloc.Tree α)) (hinv : StatesInv rule states) (order : List Path)
+    (n : Nat) (axes : List (Path × Nat × α))
+    (ha : axesOf ofNat recip rule avg states order = .ok (n, axes)) :
+    axes.map Prod.fst = order ∧ ∀ a ∈ axes, 1 ≤ a.2.1 ∧ 0 ≤ a.2.2 :=
+  axesOf_spec ofNat hof recip rule avg states hinv order n axes ha
+
+/-- **End to end** (`create_redist_dict ∘ score_fn`, exact arithmetic): for any tuple of optimizer states
+meeting the Sketchy invariants, any rule, base rank ≥ 1 and any sound share computation: whenever the
+traversal / scoring half returns axes, the allocation succeeds on them (none of the function's assertions
+fires), and whenever the function returns, every score is ≥ 0, every rank is between 1
+and the dimension and every group of equal dimension is within `size × base rank`. -/
+theorem realloc_pipeline_bounds {α : Type} [Field α] [LinearOrder α] [IsStrictOrderedRing α]
+    (alloc : α → Int → α → Int) (hs : AllocSound alloc) (ofNat : Nat → α) (hof : ∀ n, 0 ≤ ofNat n)
+    (recip : Bool) (rule : Rule) (avg : Bool) (k : Int) (hk : 1 ≤ k)
+    (states : List (Realloc.Tree α)) (hinv : StatesInv rule states) (order : List Path) :
+    (∀ n axes, axesOf ofNat recip rule avg states order = .ok (n, axes) →
+      ∃ ranks, createRedist alloc k axes = .ok ranks) ∧
+    ∀ out, pipeline alloc ofNat recip rule avg k states order = .ok out →
+      out.axes.map Prod.fst = order ∧ (∀ a ∈ out.axes, 0 ≤ a.2.2) ∧
+      ∀ g ∈ out.ranks, (∀ p ∈ g.2, 1 ≤ p.2 ∧ p.2 ≤ (g.1 : Int)) ∧
+        (g.2.map Prod.snd).sum ≤ ((groupOf out.axes g.1).length : Int) * k := by
+  have key : ∀ n axes, axesOf ofNat recip rule avg states order = .ok (n, axes) →
+      axes.map Prod.fst = order ∧ (∀ a ∈ axes, 0 ≤ a.2.2) ∧
+      ∃ ranks, createRedist alloc k axes = .ok ranks ∧
+        ∀ g ∈ ranks, (∀ p ∈ g.2, 1 ≤ p.2 ∧ p.2 ≤ (g.1 : Int)) ∧
+          (g.2.map Prod.snd).sum ≤ ((groupOf axes g.1).length : Int) * k := by
+    intro n axes ha
+    obtain ⟨h1, h2⟩ := scores_nonneg ofNat hof recip rule avg states hinv order n axes ha
+    obtain ⟨ranks, hr, hge⟩ := bounds_exact alloc hs k hk axes (fun a ha' => (h2 a ha').1) (fun a ha' => (h2 a ha').2)
+    refine ⟨h1, fun a ha' => (h2 a ha').2, ranks, hr, ?_⟩
+    intro g hg
+    obtain ⟨_, hle, hsum⟩ := (budget_any_arithmetic alloc k axes ranks hr).2 g hg
+    exact ⟨fun p hp => ⟨hge g hg p hp, hle p hp⟩, hsum⟩
+  constructor
+  · intro n axes ha
+    obtain ⟨_, _, ranks, hr, _⟩ := key n axes ha
+    exact ⟨ranks, hr⟩
+  · intro out ho
+    unfold pipeline at ho
+    split at ho
+    · cases ho
+    · rename_i n axes ha
+      obtain ⟨h1, h2, ranks, hr, h3⟩ := key n axes ha
+      rw [hr] at ho
+      dsimp only at ho
+      split at ho
+      · cases ho
+      · cases ho
+        exact ⟨h1, h2, h3⟩
+
+/-- The instance the driver executes at `Rat` (`pipelineRat`, op `pipe_rat`). -/
+theorem realloc_pipeline_bounds_rat (recip : Bool) (rule : Rule) (avg : Bool) (k : Int) (hk : 1 ≤ k)
+    (states : List (Realloc.Tree Rat)) (hinv : StatesInv rule states) (order : List Path) :
+    (∀ n axes, axesOf ratOfNat recip rule avg states order = .ok (n, axes) →
+      ∃ ranks, createRedist allocRat k axes = .ok ranks) ∧
+    ∀ out, pipelineRat recip rule avg k states order = .ok out →
+      out.axes.map Prod.fst = order ∧ (∀ a ∈ out.axes, 0 ≤ a.2.2) ∧
+      ∀ g ∈ out.ranks, (∀ p ∈ g.2, 1 ≤ p.2 ∧ p.2 ≤ (g.1 : Int)) ∧
+        (g.2.map Prod.snd).sum ≤ ((groupOf out.axes g.1).length : Int) * k :=
+  realloc_pipeline_bounds allocRat allocRat_sound ratOfNat (fun n => Nat.cast_nonneg n) recip rule avg k hk
+    states hinv order
+
+/-- **The returned dictionary is total and has no stray entries** (any arithmetic).  If the allocation and
+the construction of the nested dict succeed then (1) every axis of the input — every layer name
+`…/<x>/<i>` found by the traversal — has exactly one rank `r` in the allocation and slot `i` of the row stored
+at its own directory `…` holds `r`; (2) every allocated rank is found at its slot; (3) every row has
+`num_axes` slots and sits at the directory of some axis of the input (nothing is created for unsketched
+leaves); (4) every slot holds 0 or the rank of the axis it belongs to. -/
+theorem redist_dict_total {α : Type} [Add α] [OfNat α 0] [LT α] [DecidableLT α]
+    (alloc : α → Int → α → Int) (k : Int) (n : Nat) (axes : List (Path × Nat × α))
+    (out : List (Nat × List (Path × Int))) (hout : createRedist alloc k axes = .ok out)
+    (m : PathMap) (hm : buildMap n (axes.map Prod.fst) out = .ok m) :
+    (∀ a ∈ axes, ∃ i r, axisId a.1 = some i ∧ (a.1, r) ∈ flatRanks out ∧
+      (∀ r', (a.1, r') ∈ flatRanks out → r' = r) ∧ getSlot m (layerDir a.1) i = some r) ∧
+    (∀ w ∈ flatRanks out, ∃ i, axisId w.1 = some i ∧ getSlot m (layerDir w.1) i = some w.2) ∧
+    (∀ d row, lookupRow d m = some row → row.length = n ∧ ∃ a ∈ axes, layerDir a.1 = d) ∧
+    (∀ d j v, getSlot m d j = some v →
+      v = 0 ∨ ∃ w ∈ flatRanks out, w.2 = v ∧ layerDir w.1 = d ∧ axisId w.1 = some j) := by
+  unfold buildMap at hm
+  split at hm
+  · cases hm
+  · split at hm
+    · rename_i hnd
+      split at hm
+      · cases hm
+      · rename_i m0 hsk
+        obtain ⟨h1, _, h3, h4⟩ := writeAll_spec _ m0 m hm
+        obtain ⟨_, s2⟩ := skeleton_spec n _ m0 hsk
+        have hw := h4 hnd
+        refine ⟨?_, hw, ?_, ?_⟩
+        · intro a ha
+          obtain ⟨g, hg, _, hmem⟩ := (budget_any_arithmetic alloc k axes out hout).1 a ha
+          obtain ⟨p, hp, hpa⟩ := List.mem_map.mp hmem
+          have hfl : p ∈ flatRanks out := List.mem_flatMap.mpr ⟨g, hg, hp⟩
+          obtain ⟨i, hi, hs⟩ := hw p hfl
+          refine ⟨i, p.2, hpa ▸ hi, ?_, ?_, hpa ▸ hs⟩
+          · rw [← hpa]; exact hfl
+          · intro r' hr'
+            obtain ⟨i', hi', hs'⟩ := hw (a.1, r') hr'
+            rw [← hpa, hi] at hi'
+            cases hi'
+            rw [← hpa, hs] at hs'
+            cases hs'
+            rfl
+        · intro d row hrow
+          have hl := h1 d
+          rw [hrow] at hl
+          cases h0 : lookupRow d m0 with
+          | none => rw [h0] at hl; cases hl
+          | some row0 =>
+            rw [h0] at hl
+            obtain ⟨e1, name, hname, e2⟩ := s2 d row0 h0
+            obtain ⟨a, ha, hna⟩ := List.mem_map.mp hname
+            refine ⟨?_, a, ha, by rw [hna]; exact e2⟩
+            simp only [Option.map_some, Option.some.injEq] at hl
+            rw [hl, e1, List.length_replicate]
+        · intro d j v hv
+          rcases h3 d j v hv with h0 | ⟨w, hw', e1, e2⟩
+          · left
+            unfold getSlot at h0
+            split at h0
+            · rename_i row0 hrow0
+              obtain ⟨e1, _⟩ := s2 d row0 hrow0
+              rw [e1] at h0
+              rcases List.getElem?_eq_some_iff.mp h0 with ⟨_, hv0⟩
+              rw [List.getElem_replicate] at hv0
+              exact hv0.symm
+            · cases h0
+          · right
+            simp only [slotOf, Prod.mk.injEq] at e2
+            exact ⟨w, hw', e1, e2.1, e2.2⟩
+    · cases hm
+
+/-- **Consumption side, in memory units** (any arithmetic).  `tearfree/sketchy.py` gives an axis of dimension
+`d` a sketch of rank `min(d, memory_alloc[path][axis])` (C07: `Layout.sketchAxis`), and `min(d, options.rank)`
+without `memory_alloc`; the sketch basis of a rank-`r` axis is a `d × r` matrix.  Within every group of
+equal dimension `d` the reallocated ranks need `Σ d·rankᵢ ≤ size · d · min(d, base rank)` entries — never more
+than the uniform allocation they replace.  (When `base rank > d` the code's own budget `size × base rank` is
+larger than anything the uniform allocation could use; the bound by `size × d` then comes from `rank ≤ d`.) -/
+theorem realloc_memory_le_uniform {κ α : Type} [Add α] [OfNat α 0] [LT α] [DecidableLT α]
+    (alloc : α → Int → α → Int) (k : Int) (axes : List (κ × Nat × α))
+    (out : List (Nat × List (κ × Int))) (h : createRedist alloc k axes = .ok out) :
+    ∀ g ∈ out, (g.2.map (fun p => (g.1 : Int) * p.2)).sum
+      ≤ ((groupOf axes g.1).length : Int) * ((g.1 : Int) * min (g.1 : Int) k) := by
+  intro g hg
+  obtain ⟨hperm, hle, hsum⟩ := (budget_any_arithmetic alloc k axes out h).2 g hg
+  have hlen : g.2.length = (groupOf axes g.1).length := by
+    have := hperm.length_eq
+    simpa using this
+  have hsum' : (g.2.map Prod.snd).sum ≤ (g.2.length : Int) * (g.1 : Int) := by
+    have : ∀ (l : List (κ × Int)), (∀ p ∈ l, p.2 ≤ (g.1 : Int)) → (l.map Prod.snd).sum ≤ (l.length : Int) * (g.1 : Int) := by
+      intro l
+      induction l with
+      | nil => simp
+      | cons x xs ih =>
+        intro hx
+        have h1 := hx x List.mem_cons_self
+        have h2 := ih (fun p hp => hx p (List.mem_cons_of_mem _ hp))
+        simp only [List.map_cons, List.sum_cons, List.length_cons, Nat.cast_add, Nat.cast_one]
+        linarith
+    exact this g.2 hle
+  have hmul : (g.2.map (fun p => (g.1 : Int) * p.2)).sum = (g.1 : Int) * (g.2.map Prod.snd).sum := by
+    induction g.2 with
+    | nil => simp
+    | cons x xs ih => simp only [List.map_cons, List.sum_cons, ih]; ring
+  rw [hmul, ← hlen]
+  have hd : (0 : Int) ≤ (g.1 : Int) := Int.natCast_nonneg _
+  rw [hlen] at hsum' ⊢
+  have hmin : (g.2.map Prod.snd).sum ≤ ((groupOf axes g.1).length : Int) * min (g.1 : Int) k := by
+    rcases le_total (g.1 : Int) k with hc | hc
+    · rw [min_eq_left hc]; exact hsum'
+    · rw [min_eq_right hc]; exact hsum
+  calc (g.1 : Int) * (g.2.map Prod.snd).sum
+      ≤ (g.1 : Int) * (((groupOf axes g.1).length : Int) * min (g.1 : Int) k) := mul_le_mul_of_nonneg_left hmin hd
+    _ = ((groupOf axes g.1).length : Int) * ((g.1 : Int) * min (g.1 : Int) k) := by ring
+
+/-- Link to the C07 layout model: for a reallocated rank `1 ≤ r ≤ d` the Sketchy axis state that
+`sketchy._init` builds from `memory_alloc` has basis `d × r`, eigenvalues `r`, inverse eigenvalues `r` — the
+clamp `min(d, ·)` of the consumer is the identity on C17's output, so `d · r` above is the real size. -/
+theorem realloc_rank_is_layout_rank (cfg : Layout.TFSketchy) (shape : List Nat) (d : Nat) (r : Int)
+    (h1 : 1 ≤ r) (hd : r ≤ (d : Int)) :
+    (Layout.sketchAxis cfg shape d r.toNat).take 3 =
+      [some (Layout.f32Leaf [d, r.toNat]), some (Layout.f32Leaf [r.toNat]), some (Layout.f32Leaf [r.toNat])] := by
+  have : min d r.toNat = r.toNat := by
+    apply Nat.min_eq_right
+    omega
+  simp [Layout.sketchAxis, this]
+
+
+/-! ### Non-vacuity of the extension -/
+
+/-- An executed instance: two states, running average, `sketch_intrinsic_rank` (the second axis has an all-zero
+spectrum in both states: score 0 through the `if jnp.sum(x) else 0` guard), one axis grouped through its `dim`
+field and one through `eigvecs.shape[0]`; both land in the row of their layer directory `enc/w`. -/
+example : pipelineRat true .sketchIntrinsicRank true 3
+    [.dict [("inner_state", .dict [("0", .dict [("direction", .dict [("1", .dict [("sketches",
+      .dict [("enc", .dict [("w", .dict [("axes", .dict [
+        ("0", .dict [("eigvecs", .leaf (.shape [5, 3])), ("eigvals", .leaf (.vec [1, 2, 3]))]),
+        ("1", .dict [("dim", .leaf (.int 5)), ("eigvals", .leaf (.vec [0, 0, 0]))])])])])])])])])])]]
+    [["enc", "w", "axes", "1"], ["enc", "w", "axes", "0"]]
+  = .ok ⟨2, [(["enc", "w", "axes", "1"], 5, 0), (["enc", "w", "axes", "0"], 5, 2)],
+      [(5, [(["enc", "w", "axes", "0"], 5), (["enc", "w", "axes", "1"], 1)])], [(["enc", "w"], [5, 1])]⟩ := by
+  decide +kernel
+
+/-- `StatesInv`'s leaf invariants are satisfiable by non-trivial statistics. -/
+example : LeafInv (.vec [1, 2, 0] : Leaf Rat) ∧ LeafInv (.scalar (1 / 2) : Leaf Rat) ∧
+    LeafInv (.mat [[2, -1], [-1, 3]] 4 : Leaf Rat) := by
+  refine ⟨?_, ?_, ?_, ?_⟩ <;> simp [LeafInv, diagFrom]
+
+/-- `realloc_pipeline_bounds`' arithmetic hypotheses hold for the instance the driver runs. -/
+example : AllocSound allocRat ∧ ∀ n, (0 : Rat) ≤ ratOfNat n := ⟨allocRat_sound, fun n => Nat.cast_nonneg n⟩
+
+/-! ### Negative theorem for the extension -/
+
+/-- The state invariant is needed: `tail_rho` passes the stored `tail` through, so a state violating `tail ≥ 0`
+(the defect class C09 guards against) yields a negative score, and scores (-3, 1, 1) for three axes of dimension
+8 with base rank 3 make the exact allocation hand out the ranks (-4, -4, 8) — no assertion notices. -/
+theorem negative_tail_breaks_lower_bound :
+    opVal .tailRho (.scalar (-3 : Rat)) = some (-3) ∧
+    createRedistRat 3 [(0, 8, -3), (1, 8, 1), (2, 8, 1)] = .ok [(8, [(1, -4), (2, -4), (0, 8)])] := by
   decide +kernel
 
 end PrecondVerif.C17
